@@ -223,7 +223,17 @@ def tile_query(prog: Program) -> List[Instance]:
     # candidates come from the bounding box of the query polygon that was reconciled
     rb = [n for n in walk_own(f.node) if isinstance(n, ast.Call) and call_name(n) == "range_from_bbox"]
     ok = len(rb) == 1 and isinstance(rb[0].args[0], ast.Attribute) and rb[0].args[0].attr == "boundingbox"
-    out.append(Instance("R-GUARDSEQ", f"{f.qual}#candidates-from-bbox", OK if ok else BAD, "candidates come from the query's bounding box" if ok else "candidate tile range is not derived from the query's bounding box", f.where()))
+    if ok:
+        # ... of the polygon *after* it was brought into the grid's CRS
+        recv = rb[0].args[0].value
+        reproj = [n for n in walk_own(f.node) if isinstance(n, ast.Assign) and isinstance(n.value, ast.Call) and call_name(n.value) == "to_crs" and isinstance(recv, ast.Name) and short(n.targets[0]) == recv.id]
+        ok = bool(reproj) and all(r.lineno < rb[0].lineno for r in reproj)
+    out.append(Instance("R-GUARDSEQ", f"{f.qual}#candidates-from-bbox", OK if ok else BAD, "candidates come from the bounding box of the query after it was re-projected into the grid's CRS" if ok else "candidate tile range is not derived from the bounding box of the re-projected query (a box projected by its corners misses the bulge of curved edges)", f.where()))
+    # pixel -> tile lookup is delegated to the tiling (regular or variable), never re-derived
+    rfb = prog.func("geobox:GeoboxTiles.range_from_bbox")
+    nloc = sum(1 for n in walk_own(rfb.node) if isinstance(n, ast.Call) and call_name(n) == "locate")
+    out.append(Instance("R-GUARDSEQ", f"{rfb.qual}#locate-delegation", OK if nloc >= 2 else BAD,
+                        "first and last pixel are mapped to tiles by the tiling's own locate()" if nloc >= 2 else "pixel-to-tile lookup no longer goes through the tiling's locate(): variable-sized tilings get wrong tile ranges", rfb.where()))
     # linear path: box of the *same* idx, mapped by the affine parameter, rounded (outwards), queried on src
     g = prog.func("geobox:GeoboxTiles._grid_intersect_linear")
     pp = [p.arg for p in g.positional_params()][1:]
@@ -466,4 +476,36 @@ def gcp_frames(prog: Program) -> List[Instance]:
     if a is not None:
         ok = any(isinstance(n, ast.BinOp) and isinstance(n.op, ast.Mult) and short(n.left).endswith(".approx") and inv(n.right) is False for n in walk_own(a.node))
         out.append(Instance("R-FRAME", f"{a.qual}#composition", OK if ok else BAD, "approximate geobox = control-point affine * view affine" if ok else "approximate geobox does not compose control-point affine * view affine in that order", a.where()))
+    return out
+
+
+def from_bbox_origin(prog: Program) -> List[Instance]:
+    """C08: in the resolution-driven branch of from_bbox the grid origin is the one returned by the
+    one-axis snapper (which knows the sign of the resolution), on every path."""
+    out: List[Instance] = []
+    f = prog.func("geobox:GeoBox.from_bbox")
+    rd = ReachingDefs(f.node)
+    cond = Conditions(f.body)
+    k = 0
+    for n in walk_own(f.node):
+        if isinstance(n, ast.Call) and call_name(n) == "translation" and len(n.args) == 2:
+            st = enclosing_stmt(n)
+            cs = conds_at(cond, st)
+            res_branch = any(p and isinstance(e, ast.Compare) and isinstance(e.ops[0], ast.IsNot) and "resolution" in names_in(e) for e, p in cs)
+            if not res_branch:
+                continue
+            k += 1
+            bad = []
+            for a in n.args:
+                if not isinstance(a, ast.Name):
+                    bad.append(short(a))
+                    continue
+                for _, dst, v, kind in rd.reaching(st, a.id):
+                    if not (isinstance(v, ast.Call) and call_name(v) == "snap_grid" and kind.startswith("unpack[0/")):
+                        bad.append(f"{a.id} <- {short(v) if v is not None else kind}")
+            out.append(Instance("R-SIGNROLE", f"{f.qual}#origin-from-snap_grid:{k}", BAD if bad else OK,
+                                f"grid origin in the resolution-driven branch does not come from snap_grid on every path ({bad[:2]}): with a positive y or negative x resolution the grid lies beside the region" if bad
+                                else "origin of the resolution-driven grid is snap_grid's sign-aware origin on every path", f.where(n)))
+    if k == 0:
+        out.append(Instance("R-SIGNROLE", f"{f.qual}#origin-from-snap_grid", UNDET, "resolution-driven Affine.translation not found", f.where()))
     return out
